@@ -30,6 +30,8 @@
      delegs, vals, unbond, redel                           the part of x/staking the node hooks read / the limits they hit
      vol                                                   the staking hooks' process-global (NOT in the store)
      pool.reward is RELATIVE to its genesis value (cfg.rewardAge / cfg.toNextAge say where genesis stands, Chain!RewardAge)
+     vals     <<[v,shares,tokens,status]>>                 validators in operator-address order; status 1 unbonded, 2 unbonding,
+                                                           3 bonded; cfg.maxVals places in the active set (Chain!StakingEnd)
 
    Events name the key that really signed (`signer`: a key did or a sid DOCUMENT) separately from what the request's
    header claims (`sigmode`); Principal(cfg, s, ev) below is the DID that key belongs to.
